@@ -1,5 +1,7 @@
 import Proofs.Lemmas.SSZCanonical
 import Zrnt.Gen.SszFacts
+import Zrnt.Gen.SszCodec
+import Zrnt.Gen.SszTags
 import Proofs.Lemmas.SSZSchemaLegal
 import Proofs.Lemmas.SSZPolyNF
 import Proofs.Lemmas.SSZDenote
@@ -115,29 +117,45 @@ open Zrnt.Schema Zrnt.Schema.Facts Zrnt.Gen.SszFacts in
 /-- **Every Go SSZ type agrees with the specification schema** (`Zrnt.Schema.Facts.checkType`), for all
 configurations (lengths and limits are compared as polynomials over the configuration constants):
 * the struct declaration has the schema's fields in the schema's order, each field's Go type is (an alias of)
-  the schema's field type, and `json` tag = `yaml` tag = the specification's field name;
-* `Deserialize`, `Serialize`, `ByteLength`, `FixedLength` and `HashTreeRoot` each list exactly the struct's
+  the schema's field type (the `json` / `yaml` tags are `ssz_text_tags_agree` below);
+* `Deserialize`, `Serialize`, `ByteLength` and `FixedLength` each list exactly the struct's
   fields in declaration order (`dr/w.Container`, `FixedLenContainer` only for fixed-size containers,
-  `codec.ContainerLength`, `hFn.HashTreeRoot`), or report the schema's fixed length;
-* list/vector/bitfield wrappers decode with the schema's limit and element size and merkleize with the
-  schema's limit and the packing that fits the element type;
+  `codec.ContainerLength`), or report the schema's fixed length;
+* list/vector/bitfield wrappers decode with the schema's limit and element size
+  (the `HashTreeRoot` bodies are the `.root` part of the same check: `Zrnt.Gen.SszRoot`, property C05);
 * the tree-view type definition (`XType`) denotes the schema.
 Bodies outside the recognised shapes are `opaque` (`Zrnt.Gen.SszFacts.opaqueMethods`, counted in the evidence):
 they are not covered by this theorem, only by the differential run. A row that stops checking is a failing
-`row_ok_<pkg>_<Type>` obligation and `checkType` evaluates to the offending method. Rows listed in
+`Zrnt.Gen.SszCodec.row_ok_<pkg>_<Type>` obligation and `checkType` evaluates to the offending method. Rows listed in
 `Zrnt.Schema.Facts.knownDeviations` (recorded findings: a custom preset that changes `MAX_EXTRA_DATA_BYTES` or
 `BYTES_PER_LOGS_BLOOM` is ignored by zrnt) are exempt for exactly the recorded reason. -/
-theorem ssz_methods_agree : ∀ T ∈ types, T.name ∉ knownDeviations.map (·.1) → checkType owners views T = none := by
+theorem ssz_methods_agree : ∀ T ∈ types, T.name ∉ knownDeviations.map (·.1) → checkType owners views .codec T = none := by
   intro T h hdev
-  have hrow := List.all_eq_true.mp all_rows_ok T h
+  have hrow := List.all_eq_true.mp Zrnt.Gen.SszCodec.all_rows_ok T h
   unfold rowOk at hrow
-  cases hc : checkType owners views T with
+  cases hc : checkType owners views .codec T with
   | none => rfl
   | some r =>
     exfalso
     simp only [hc, List.any_eq_true, Bool.and_eq_true, beq_iff_eq] at hrow
     obtain ⟨d, hd, hn, _⟩ := hrow
     exact hdev (hn ▸ List.mem_map_of_mem hd)
+
+open Zrnt.Schema Zrnt.Schema.Facts Zrnt.Gen.SszFacts in
+/-- **The text form of every struct type uses the specification's field names** (facts regenerated by
+`extract ssztags` into `Zrnt.Gen.SszTags`, one kernel-decided obligation `tags_ok_<pkg>_<Type>` per row): for every Go
+struct type with the SSZ method set, the `json` tag and the `yaml` tag of the i-th field are the name of the i-th field
+of the specification schema — hence pairwise distinct, so `encoding/json` and yaml neither drop nor merge a field, and
+the keys are those of `Zrnt.SSZ.toJson`. Kept apart from `ssz_methods_agree`: bytes and hash-tree-roots do not depend
+on tags, so C05 does not read this table. -/
+theorem ssz_text_tags_agree : ∀ T ∈ types, ∀ fs fields, Spec.lookup T.name = some (.container fs) → T.decl = .struct fields →
+    tagsOk fields fs = true := by
+  intro T h fs fields hs hd
+  have hrow := List.all_eq_true.mp Zrnt.Gen.SszTags.all_tags_ok T h
+  simp only [tagsRowOk, checkTags, hs, hd] at hrow
+  split at hrow
+  · assumption
+  · simp at hrow
 
 open Zrnt.Schema Zrnt.Schema.Facts Zrnt.Gen.SszFacts in
 /-- the rows exempted as recorded findings: exactly the two bellatrix preset values zrnt hard-codes -/
@@ -169,62 +187,18 @@ theorem ssz_types_complete :
 /-! ## What a checked row means: the Go methods compute the specification's functions -/
 
 open Zrnt.Schema Zrnt.Schema.Facts Zrnt.Gen.SszFacts in
-/-- no method body of the regenerated table is outside the recognised shapes -/
-theorem no_opaque_bodies : types.all (fun T => T.opaqueMethods.isEmpty) = true := by decide +kernel
+/-- no body of an encoding method (`Deserialize`, `Serialize`, `ByteLength`, `FixedLength`) of the regenerated table is
+outside the recognised shapes (the `HashTreeRoot` bodies: `Zrnt.Proofs.C05.no_opaque_root_bodies`) -/
+theorem no_opaque_bodies : types.all (fun T => !T.codecOpaque) = true := by decide +kernel
 
 open Zrnt.Schema Zrnt.Schema.Facts Zrnt.Gen.SszFacts in
-/-- **Semantic soundness of the facts check, struct types.** Let `T` be a row of the regenerated table whose
-specification schema is a container, and let `env` give, for the Go type of every field, an implementation that
-meets the specification at that field type's schema (compositional hypothesis: those types have their own rows).
-Then what the five Go methods of `T` compute — the models of ztyp's `w.Container` / `FixedLenContainer` /
-`dr.Container` / `codec.ContainerLength` / `hFn.HashTreeRoot` (`Zrnt.SSZ.Impl`) applied to the field
-implementations in the order the method bodies list them, resp. the constants the length methods return — is
-the specification at `T`'s schema under the configuration `c`: `Deserialize = decode`, `FixedLength = fixedLen`,
-and on every well-typed value `Serialize = encode`, `ByteLength = byteLength`, `HashTreeRoot = htr`.
-(ztyp's combinators are modelled at the level of whole scopes; the real ones are compared with the same
-specification by the differential run.) -/
-theorem checkType_sound_struct (H : Hash2) (c : Config) (hpos : ∀ k, 0 < c k) (hsync : 4 ≤ c n!"SYNC_COMMITTEE_SIZE")
-    (env : Env) (T : GoType) (hT : T ∈ types) (hdev : T.name ∉ knownDeviations.map (·.1))
-    (sfs : SFields) (fields : List GoField)
-    (hschema : Spec.lookup T.name = some (.container sfs)) (hdecl : T.decl = .struct fields)
-    (henv : EnvOk H c env fields) :
-    ∃ I, denoteStruct H c owners views env fields T = some I ∧
-      I.des = decode ((STy.container sfs).eval c) ∧ I.flen = ((STy.container sfs).eval c).fixedLen ∧
-      ∀ v, WF ((STy.container sfs).eval c) v →
-        I.ser v = encode ((STy.container sfs).eval c) v ∧ I.blen v = byteLength ((STy.container sfs).eval c) v ∧
-        I.root v = htr H ((STy.container sfs).eval c) v := by
-  obtain ⟨hs, hdes, hser, hbl, hfl, hroot⟩ := extract_struct owners views T sfs fields (ssz_methods_agree T hT hdev) hschema hdecl
-  -- the schema entry is legal under the configuration
-  have hmem : (T.name, STy.container sfs) ∈ Spec.table := by
-    unfold Spec.lookup at hschema
-    cases hf : Spec.table.find? (·.1 == T.name) with
-    | none => simp [hf] at hschema
-    | some e =>
-      simp only [hf, Option.map_some, Option.some.injEq] at hschema
-      have hm := List.mem_of_find?_eq_some hf
-      have hk := List.find?_some hf
-      have : e = (T.name, STy.container sfs) := by
-        cases e; simp only [beq_iff_eq] at hk; simp_all
-      rw [← this]; exact hm
-  have hleg := schema_types_legal c hpos hsync _ hmem
-  simp only [STy.eval, Ty.Legal] at hleg
-  -- no opaque bodies
+/-- no encoding method of a row of the regenerated table is opaque (unfolded form of `no_opaque_bodies`) -/
+theorem row_methods_not_opaque (T : GoType) (hT : T ∈ types) :
+    T.deserialize.isOpaque = false ∧ T.serialize.isOpaque = false ∧ T.byteLength.isOpaque = false ∧
+    T.fixedLength.isOpaque = false := by
   have hop := List.all_eq_true.mp no_opaque_bodies T hT
-  simp only [GoType.opaqueMethods, List.isEmpty_iff, List.map_eq_nil_iff, List.filter_eq_nil_iff] at hop
-  have o1 : T.deserialize.isOpaque = false := by simpa using hop ("Deserialize", T.deserialize) (by simp)
-  have o2 : T.serialize.isOpaque = false := by simpa using hop ("Serialize", T.serialize) (by simp)
-  have o3 : T.byteLength.isOpaque = false := by simpa using hop ("ByteLength", T.byteLength) (by simp)
-  have o4 : T.fixedLength.isOpaque = false := by simpa using hop ("FixedLength", T.fixedLength) (by simp)
-  have o5 : T.hashTreeRoot.isOpaque = false := by simpa using hop ("HashTreeRoot", T.hashTreeRoot) (by simp)
-  have e1 := structSer_sound H c owners views env fields sfs hleg.2 hs henv _ o2 hser
-  have e2 := structDes_sound H c owners views env fields sfs hleg.2 hs henv _ o1 hdes
-  obtain ⟨b, e3, hb⟩ := structBlen_sound H c owners views env fields sfs hleg.2 hs henv _ o3 hbl
-  have e4 := structFlen_sound H c owners views env fields sfs hs henv _ o4 hfl
-  have e5 := structRoot_sound H c owners views env fields sfs hs henv _ o5 hroot
-  simp only [STy.eval]
-  exact ⟨⟨encode (.container (sfs.eval c)), decode (.container (sfs.eval c)), b, (Ty.container (sfs.eval c)).fixedLen,
-      htr H (.container (sfs.eval c))⟩,
-    by simp only [denoteStruct, e1, e2, e3, e4, e5], rfl, rfl, fun v hw => ⟨rfl, hb v hw, rfl⟩⟩
+  simp only [GoType.codecOpaque, Bool.not_eq_true', Bool.or_eq_false_iff] at hop
+  exact ⟨hop.1.1.1, hop.1.1.2, hop.1.2, hop.2⟩
 
 open Zrnt.Schema Zrnt.Schema.Facts Zrnt.Gen.SszFacts in
 /-- the membership half of `Spec.lookup` -/
@@ -241,92 +215,100 @@ theorem lookup_mem (n : Name) (st : STy) (h : Spec.lookup n = some st) : (n, st)
     rw [← this]; exact hm
 
 open Zrnt.Schema Zrnt.Schema.Facts Zrnt.Gen.SszFacts in
-/-- **Semantic soundness of the facts check, list wrapper types** (`type Deposits []Deposit` …). If the element
-implementation `e` meets the specification at the element schema, then what the five methods of the list type
-compute — ztyp's `w.List(item, size, len)`, `dr.List(add, size, limit)`, `len * size` resp. `Σ (item + offset)`,
-`0`, and `ComplexListHTR / Uint64ListHTR / Uint8ListHTR(…, limit)` with the size and limit expressions of the
-method bodies evaluated under `c` — is the specification at `List[elem, limit]`: in particular the limit used by
-`Deserialize` and by `HashTreeRoot` is the schema's limit under every configuration, and the packing helper fits
-the element type. -/
+/-- **Semantic soundness of the facts check, struct types (encoding methods).** Let `T` be a row of the regenerated
+table whose specification schema is a container, and let `env` give, for the Go type of every field, an implementation
+that meets the specification at that field type's schema (compositional hypothesis: those types have their own rows).
+Then what the four encoding methods of `T` compute — the models of ztyp's `w.Container` / `FixedLenContainer` /
+`dr.Container` / `codec.ContainerLength` (`Zrnt.SSZ.Impl`) applied to the field implementations in the order the method
+bodies list them, resp. the constants the length methods return — is the specification at `T`'s schema under the
+configuration `c`: `Deserialize = decode`, `FixedLength = fixedLen`, and on every well-typed value `Serialize = encode`,
+`ByteLength = byteLength`. (`HashTreeRoot = htr`: `Zrnt.Proofs.C05.checkType_root_struct`. ztyp's combinators are
+modelled at the level of whole scopes; the real ones are compared with the same specification by the differential run.) -/
+theorem checkType_sound_struct (H : Hash2) (c : Config) (hpos : ∀ k, 0 < c k) (hsync : 4 ≤ c n!"SYNC_COMMITTEE_SIZE")
+    (env : Env) (T : GoType) (hT : T ∈ types) (hdev : T.name ∉ knownDeviations.map (·.1))
+    (sfs : SFields) (fields : List GoField)
+    (hschema : Spec.lookup T.name = some (.container sfs)) (hdecl : T.decl = .struct fields)
+    (henv : EnvOk H c env fields) :
+    ∃ I, denoteStructCodec c owners views env fields T = some I ∧
+      I.des = decode ((STy.container sfs).eval c) ∧ I.flen = ((STy.container sfs).eval c).fixedLen ∧
+      ∀ v, WF ((STy.container sfs).eval c) v →
+        I.ser v = encode ((STy.container sfs).eval c) v ∧ I.blen v = byteLength ((STy.container sfs).eval c) v := by
+  obtain ⟨hs, hdes, hser, hbl, hfl⟩ := extract_struct_codec owners views T sfs fields (ssz_methods_agree T hT hdev) hschema hdecl
+  have hleg := schema_types_legal c hpos hsync _ (lookup_mem _ _ hschema)
+  simp only [STy.eval, Ty.Legal] at hleg
+  obtain ⟨o1, o2, o3, o4⟩ := row_methods_not_opaque T hT
+  have e1 := structSer_sound H c owners views env fields sfs hleg.2 hs henv _ o2 hser
+  have e2 := structDes_sound H c owners views env fields sfs hleg.2 hs henv _ o1 hdes
+  obtain ⟨b, e3, hb⟩ := structBlen_sound H c owners views env fields sfs hleg.2 hs henv _ o3 hbl
+  have e4 := structFlen_sound H c owners views env fields sfs hs henv _ o4 hfl
+  simp only [STy.eval]
+  exact ⟨⟨encode (.container (sfs.eval c)), decode (.container (sfs.eval c)), b, (Ty.container (sfs.eval c)).fixedLen⟩,
+    by simp only [denoteStructCodec, e1, e2, e3, e4], rfl, rfl, fun v hw => ⟨rfl, hb v hw⟩⟩
+
+open Zrnt.Schema Zrnt.Schema.Facts Zrnt.Gen.SszFacts in
+/-- **Semantic soundness of the facts check, list wrapper types** (`type Deposits []Deposit` …), encoding methods. If the
+element implementation `e` meets the specification at the element schema, then what the four encoding methods of the
+list type compute — ztyp's `w.List(item, size, len)`, `dr.List(add, size, limit)`, `len * size` resp.
+`Σ (item + offset)`, and `0`, with the size and limit expressions of the method bodies evaluated under `c` — is the
+specification at `List[elem, limit]`: in particular the limit used by `Deserialize` is the schema's limit under every
+configuration. (`HashTreeRoot`: `Zrnt.Proofs.C05.checkType_root_list`.) -/
 theorem checkType_sound_list (H : Hash2) (c : Config) (hpos : ∀ k, 0 < c k) (hsync : 4 ≤ c n!"SYNC_COMMITTEE_SIZE")
     (T : GoType) (hT : T ∈ types) (hdev : T.name ∉ knownDeviations.map (·.1)) (elem : STy) (lim : LExpr)
     (hschema : Spec.lookup T.name = some (.list elem lim)) :
-    ∃ I, denoteList H c owners views (specImpl H (elem.eval c)) T = some I ∧
+    ∃ I, denoteListCodec c owners views (specImpl H (elem.eval c)) T = some I ∧
       I.des = decode ((STy.list elem lim).eval c) ∧ I.flen = ((STy.list elem lim).eval c).fixedLen ∧
       ∀ v, WF ((STy.list elem lim).eval c) v →
-        I.ser v = encode ((STy.list elem lim).eval c) v ∧ I.blen v = byteLength ((STy.list elem lim).eval c) v ∧
-        I.root v = htr H ((STy.list elem lim).eval c) v := by
-  obtain ⟨hdes, hser, hbl, hfl, hroot⟩ := extract_list owners views T elem lim (ssz_methods_agree T hT hdev) hschema
+        I.ser v = encode ((STy.list elem lim).eval c) v ∧ I.blen v = byteLength ((STy.list elem lim).eval c) v := by
+  obtain ⟨hdes, hser, hbl, hfl⟩ := extract_list_codec owners views T elem lim (ssz_methods_agree T hT hdev) hschema
   have hleg := schema_types_legal c hpos hsync _ (lookup_mem _ _ hschema)
   simp only [STy.eval, Ty.Legal] at hleg
-  have hop := List.all_eq_true.mp no_opaque_bodies T hT
-  simp only [GoType.opaqueMethods, List.isEmpty_iff, List.map_eq_nil_iff, List.filter_eq_nil_iff] at hop
-  have o1 : T.deserialize.isOpaque = false := by simpa using hop ("Deserialize", T.deserialize) (by simp)
-  have o2 : T.serialize.isOpaque = false := by simpa using hop ("Serialize", T.serialize) (by simp)
-  have o3 : T.byteLength.isOpaque = false := by simpa using hop ("ByteLength", T.byteLength) (by simp)
-  have o4 : T.fixedLength.isOpaque = false := by simpa using hop ("FixedLength", T.fixedLength) (by simp)
-  have o5 : T.hashTreeRoot.isOpaque = false := by simpa using hop ("HashTreeRoot", T.hashTreeRoot) (by simp)
+  obtain ⟨o1, o2, o3, o4⟩ := row_methods_not_opaque T hT
   have e1 := listSer_sound H c owners views elem lim hleg _ o2 hser
   have e2 := listDes_sound H c owners views elem lim hleg _ o1 hdes
   obtain ⟨b, e3, hb⟩ := listBlen_sound H c owners views elem lim hleg _ o3 hbl
   have e4 := listFlen_sound c owners views elem lim _ o4 hfl
-  have e5 := listRoot_sound H c owners views elem lim _ o5 hroot
   simp only [STy.eval]
   exact ⟨⟨encode (.list (elem.eval c) (lim.eval c)), decode (.list (elem.eval c) (lim.eval c)), b,
-      (Ty.list (elem.eval c) (lim.eval c)).fixedLen, htr H (.list (elem.eval c) (lim.eval c))⟩,
-    by simp only [denoteList, e1, e2, e3, e4, e5], rfl, rfl, fun v hw => ⟨rfl, hb v hw, rfl⟩⟩
-
-open Zrnt.Schema Zrnt.Schema.Facts Zrnt.Gen.SszFacts in
-/-- no method of a row of the regenerated table is opaque (unfolded form of `no_opaque_bodies`) -/
-theorem row_methods_not_opaque (T : GoType) (hT : T ∈ types) :
-    T.deserialize.isOpaque = false ∧ T.serialize.isOpaque = false ∧ T.byteLength.isOpaque = false ∧
-    T.fixedLength.isOpaque = false ∧ T.hashTreeRoot.isOpaque = false := by
-  have hop := List.all_eq_true.mp no_opaque_bodies T hT
-  simp only [GoType.opaqueMethods, List.isEmpty_iff, List.map_eq_nil_iff, List.filter_eq_nil_iff] at hop
-  exact ⟨by simpa using hop ("Deserialize", T.deserialize) (by simp), by simpa using hop ("Serialize", T.serialize) (by simp),
-    by simpa using hop ("ByteLength", T.byteLength) (by simp), by simpa using hop ("FixedLength", T.fixedLength) (by simp),
-    by simpa using hop ("HashTreeRoot", T.hashTreeRoot) (by simp)⟩
+      (Ty.list (elem.eval c) (lim.eval c)).fixedLen⟩,
+    by simp only [denoteListCodec, e1, e2, e3, e4], rfl, rfl, fun v hw => ⟨rfl, hb v hw⟩⟩
 
 open Zrnt.Schema Zrnt.Schema.Facts Zrnt.Gen.SszFacts in
 /-- **Semantic soundness of the facts check, vector types** (`type RandaoMixes []Root`, `type DepositProof [33]Root`,
-`HistoricalBatchRoots`, the sync-committee key vectors, …). For a row whose schema is `Vector[elem, len]` and an
-implementation of the element type that *is* the specification at `elem`, what the five methods compute — ztyp's
-`w.Vector(item, size, len)` / `tree.WriteRoots`, `dr.Vector(item, size, len)` / `tree.ReadRoots`, `len(a) * size` resp.
-the constants of the length methods, and `ComplexVectorHTR / ChunksHTR / Uint64VectorHTR(…, len)`, with the size and
-length expressions of the bodies evaluated under `c`; a length the body takes from the receiver (`len(a)`) is the
-receiver's — is the specification at `Vector[elem, len]`: the length used by `Deserialize` and by `HashTreeRoot` is
-the schema's under every configuration and the packing helper fits the element type. -/
+`HistoricalBatchRoots`, the sync-committee key vectors, …), encoding methods. For a row whose schema is
+`Vector[elem, len]` and an implementation of the element type that *is* the specification at `elem`, what the four
+encoding methods compute — ztyp's `w.Vector(item, size, len)` / `tree.WriteRoots`, `dr.Vector(item, size, len)` /
+`tree.ReadRoots`, `len(a) * size` resp. the constants of the length methods, with the size and length expressions of the
+bodies evaluated under `c` — is the specification at `Vector[elem, len]`: the length used by `Deserialize` is the
+schema's under every configuration. (`HashTreeRoot`: `Zrnt.Proofs.C05.checkType_root_vector`.) -/
 theorem checkType_sound_vector (H : Hash2) (c : Config) (hpos : ∀ k, 0 < c k) (hsync : 4 ≤ c n!"SYNC_COMMITTEE_SIZE")
     (T : GoType) (hT : T ∈ types) (hdev : T.name ∉ knownDeviations.map (·.1)) (elem : STy) (len : LExpr)
     (hschema : Spec.lookup T.name = some (.vector elem len)) :
-    ∃ I, denoteVector H c owners views (specImpl H (elem.eval c)) T = some I ∧
+    ∃ I, denoteVectorCodec c owners views (specImpl H (elem.eval c)) T = some I ∧
       I.des = decode ((STy.vector elem len).eval c) ∧ I.flen = ((STy.vector elem len).eval c).fixedLen ∧
       ∀ v, WF ((STy.vector elem len).eval c) v →
-        I.ser v = encode ((STy.vector elem len).eval c) v ∧ I.blen v = byteLength ((STy.vector elem len).eval c) v ∧
-        I.root v = htr H ((STy.vector elem len).eval c) v := by
-  obtain ⟨hdes, hser, hbl, hfl, hroot⟩ := extract_vector owners views T elem len (ssz_methods_agree T hT hdev) hschema
+        I.ser v = encode ((STy.vector elem len).eval c) v ∧ I.blen v = byteLength ((STy.vector elem len).eval c) v := by
+  obtain ⟨hdes, hser, hbl, hfl⟩ := extract_vector_codec owners views T elem len (ssz_methods_agree T hT hdev) hschema
   have hleg := schema_types_legal c hpos hsync _ (lookup_mem _ _ hschema)
   simp only [STy.eval, Ty.Legal] at hleg
-  obtain ⟨o1, o2, o3, o4, o5⟩ := row_methods_not_opaque T hT
+  obtain ⟨o1, o2, o3, o4⟩ := row_methods_not_opaque T hT
   have e1 := vecSer_sound H c owners views elem len hleg.2 _ o2 hser
   have e2 := vecDes_sound H c owners views elem len hleg.2 _ o1 hdes
   obtain ⟨b, e3, hb⟩ := vecBlen_sound c owners views elem len hleg.2 _ o3 hbl
   have e4 := vecFlen_sound c owners views elem len _ o4 hfl
-  obtain ⟨r, e5, hr⟩ := vecRoot_sound H c owners views elem len _ o5 hroot
   simp only [STy.eval]
   exact ⟨⟨encode (.vector (elem.eval c) (len.eval c)), decode (.vector (elem.eval c) (len.eval c)), b,
-      (Ty.vector (elem.eval c) (len.eval c)).fixedLen, r⟩,
-    by simp only [denoteVector, e1, e2, e3, e4, e5], rfl, rfl, fun v hw => ⟨rfl, hb v hw, hr v hw⟩⟩
+      (Ty.vector (elem.eval c) (len.eval c)).fixedLen⟩,
+    by simp only [denoteVectorCodec, e1, e2, e3, e4], rfl, rfl, fun v hw => ⟨rfl, hb v hw⟩⟩
 
-/-- A leaf implementation over raw bytes that meets the specification at `t`, read through the encoding
-(`LeafImpl.lift`), is the specification on values: same statement shape as for structs, lists and vectors. -/
-theorem leaf_meets_lift (H : Hash2) (t : Ty) (L : LeafImpl) (h : L.Meets H t) :
+/-- A leaf codec over raw bytes that meets the specification at `t`, read through the encoding (`LeafCodec.lift`), is
+the specification on values: same statement shape as for structs, lists and vectors. -/
+theorem leaf_meets_lift (t : Ty) (L : LeafCodec) (h : L.Meets t) :
     (L.lift t).des = decode t ∧ (L.lift t).flen = t.fixedLen ∧
-    ∀ v, WF t v → (L.lift t).ser v = encode t v ∧ (L.lift t).blen v = byteLength t v ∧ (L.lift t).root v = htr H t v := by
+    ∀ v, WF t v → (L.lift t).ser v = encode t v ∧ (L.lift t).blen v = byteLength t v := by
   obtain ⟨hd, hf, hv⟩ := h
   refine ⟨?_, hf, fun v hw => hv v hw⟩
   funext bs
-  simp only [LeafImpl.lift, hd]
+  simp only [LeafCodec.lift, hd]
   cases hdec : decode t bs with
   | none => rfl
   | some v =>
@@ -335,53 +317,45 @@ theorem leaf_meets_lift (H : Hash2) (t : Ty) (L : LeafImpl) (h : L.Meets H t) :
 
 open Zrnt.Schema Zrnt.Schema.Facts Zrnt.Gen.SszFacts in
 /-- **Semantic soundness of the facts check, bit fields and byte lists** (`AttestationBits`, `SyncCommitteeBits`,
-`JustificationBits`-style bitvectors, `ExtraData`, `Transaction`, …): the Go value *is* the byte string. For a row whose
-schema is `Bitlist[lim]`, `Bitvector[lim]` or `ByteList[lim]`, the byte-level models of what the five methods call —
-`common.ReadBitList` with `BitlistCheck`, ztyp's `dr.Read` of the exact length / `dr.ByteList`-style scope read with the
-limit, `w.Write`, `len(a)` resp. the constant of the length methods, and `BitListHTR / BitVectorHTR / ByteListHTR(…,
-limit)` (chunk packing, delimiter-bit removal and length mix-in as in `Zrnt.SSZ.Impl`), with the limit expressions
-of the bodies evaluated under `c` — meet the specification at the schema: the set of accepted byte strings, the
-reported lengths and the root are the specification's, for the schema's limit under every configuration. -/
-theorem checkType_sound_bitfield (H : Hash2) (c : Config)
+`JustificationBits`-style bitvectors, `ExtraData`, `Transaction`, …), encoding methods: the Go value *is* the byte
+string. For a row whose schema is `Bitlist[lim]`, `Bitvector[lim]` or `ByteList[lim]`, the byte-level models of what the
+four encoding methods call — `common.ReadBitList` with `BitlistCheck`, ztyp's `dr.Read` of the exact length /
+`dr.ByteList`-style scope read with the limit, `w.Write`, `len(a)` resp. the constant of the length methods, with the
+limit expressions of the bodies evaluated under `c` — meet the specification at the schema: the set of accepted byte
+strings and the reported lengths are the specification's, for the schema's limit under every configuration.
+(`HashTreeRoot`: `Zrnt.Proofs.C05.checkType_root_bitfield`.) -/
+theorem checkType_sound_bitfield (c : Config)
     (T : GoType) (hT : T ∈ types) (hdev : T.name ∉ knownDeviations.map (·.1)) (lim : LExpr) (sty : STy)
     (hkind : sty = .bitlist lim ∨ sty = .bitvector lim ∨ sty = .byteList lim)
     (hschema : Spec.lookup T.name = some sty) :
-    ∃ L, denoteLeaf H c owners views T = some L ∧ L.Meets H (sty.eval c) := by
-  obtain ⟨o1, o2, o3, o4, o5⟩ := row_methods_not_opaque T hT
+    ∃ L, denoteLeafCodec c owners views T = some L ∧ L.Meets (sty.eval c) := by
+  obtain ⟨o1, o2, o3, o4⟩ := row_methods_not_opaque T hT
   rcases hkind with rfl | rfl | rfl
-  · obtain ⟨h1, h2, h3, h4, h5⟩ := extract_bitlist owners views T lim (ssz_methods_agree T hT hdev) hschema
-    exact bitlist_row_sound H c owners views lim T o1 o2 o3 o4 o5 h1 h2 h3 h4 h5
-  · obtain ⟨h1, h2, h3, h4, h5⟩ := extract_bitvector owners views T lim (ssz_methods_agree T hT hdev) hschema
-    exact bitvector_row_sound H c owners views lim T o1 o2 o3 o4 o5 h1 h2 h3 h4 h5
-  · obtain ⟨h1, h2, h3, h4, h5⟩ := extract_byteList owners views T lim (ssz_methods_agree T hT hdev) hschema
-    exact bytelist_row_sound H c owners views lim T o1 o2 o3 o4 o5 h1 h2 h3 h4 h5
+  · obtain ⟨h1, h2, h3, h4⟩ := extract_bitlist_codec owners views T lim (ssz_methods_agree T hT hdev) hschema
+    exact bitlist_row_sound c owners views lim T o1 o2 o3 o4 h1 h2 h3 h4
+  · obtain ⟨h1, h2, h3, h4⟩ := extract_bitvector_codec owners views T lim (ssz_methods_agree T hT hdev) hschema
+    exact bitvector_row_sound c owners views lim T o1 o2 o3 o4 h1 h2 h3 h4
+  · obtain ⟨h1, h2, h3, h4⟩ := extract_byteList_codec owners views T lim (ssz_methods_agree T hT hdev) hschema
+    exact bytelist_row_sound c owners views lim T o1 o2 o3 o4 h1 h2 h3 h4
 
 open Zrnt.Schema Zrnt.Schema.Facts Zrnt.Gen.SszFacts in
 /-- **Semantic soundness of the facts check, leaf types** (integer aliases `Slot`, `Epoch`, `Gwei`, `ValidatorIndex`, …
-and byte arrays `Root`, `BLSPubkey`, `BLSSignature`, `Version`, `LogsBloom`, …). For a row whose schema is `uintN` or
-`BytesN`, the byte-level models of the five methods — `UintNView.Deserialize` / `dr.Read(p[:])` (exactly the fixed
-number of bytes), `w.WriteUintN` / `w.Write(p[:])`, the constant length reports, and the padded-chunk resp.
-`merkleize(pack(bytes))` root — meet the specification at the schema (width resp. length of the schema under `c`). -/
-theorem checkType_sound_leaf (H : Hash2) (c : Config)
+and byte arrays `Root`, `BLSPubkey`, `BLSSignature`, `Version`, `LogsBloom`, …), encoding methods. For a row whose schema
+is `uintN` or `BytesN`, the byte-level models of the four encoding methods — `UintNView.Deserialize` / `dr.Read(p[:])`
+(exactly the fixed number of bytes), `w.WriteUintN` / `w.Write(p[:])`, the constant length reports — meet the
+specification at the schema (width resp. length of the schema under `c`). (`HashTreeRoot`:
+`Zrnt.Proofs.C05.checkType_root_leaf`.) -/
+theorem checkType_sound_leaf (c : Config)
     (T : GoType) (hT : T ∈ types) (hdev : T.name ∉ knownDeviations.map (·.1)) (sty : STy)
     (hkind : (∃ k, sty = .uint k) ∨ (∃ e, sty = .bytesN e))
     (hschema : Spec.lookup T.name = some sty) :
-    ∃ L, denoteLeaf H c owners views T = some L ∧ L.Meets H (sty.eval c) := by
-  obtain ⟨o1, o2, o3, o4, o5⟩ := row_methods_not_opaque T hT
+    ∃ L, denoteLeafCodec c owners views T = some L ∧ L.Meets (sty.eval c) := by
+  obtain ⟨o1, o2, o3, o4⟩ := row_methods_not_opaque T hT
   rcases hkind with ⟨k, rfl⟩ | ⟨e, rfl⟩
-  · obtain ⟨h1, h2, h3, h4, h5⟩ := extract_uint owners views T k (ssz_methods_agree T hT hdev) hschema
-    exact uint_row_sound H c owners views k T o1 o2 o3 o4 o5 h1 h2 h3 h4 h5
-  · obtain ⟨h1, h2, h3, h4, h5⟩ := extract_bytesN owners views T e (ssz_methods_agree T hT hdev) hschema
-    exact bytesN_row_sound H c owners views e T o1 o2 o3 o4 o5 h1 h2 h3 h4 h5
-
-open Zrnt.Schema Zrnt.Schema.Facts Zrnt.Gen.SszFacts in
-/-- the schema kind of a row: one of the eight kinds the four soundness theorems cover -/
-def rowKindCovered (T : GoType) : Bool :=
-  match Spec.lookup T.name, T.decl with
-  | some (.container _), .struct _ => true
-  | some (.list _ _), _ | some (.vector _ _), _ | some (.bitlist _), _ | some (.bitvector _), _ | some (.byteList _), _
-  | some (.uint _), _ | some (.bytesN _), _ => true
-  | _, _ => false
+  · obtain ⟨h1, h2, h3, h4⟩ := extract_uint_codec owners views T k (ssz_methods_agree T hT hdev) hschema
+    exact uint_row_sound c owners views k T o1 o2 o3 o4 h1 h2 h3 h4
+  · obtain ⟨h1, h2, h3, h4⟩ := extract_bytesN_codec owners views T e (ssz_methods_agree T hT hdev) hschema
+    exact bytesN_row_sound c owners views e T o1 o2 o3 o4 h1 h2 h3 h4
 
 open Zrnt.Schema Zrnt.Schema.Facts Zrnt.Gen.SszFacts in
 /-- **The soundness theorems cover every row**: each row of the regenerated table has a container schema with a struct
